@@ -19,7 +19,10 @@ props = sorted({s['prop'] for s in seeds})
 out = ['<!-- appendixB -->', '## Appendix B - which checks report which seeded changes (as built)', '',
        'Full matrix: `SEEDS.md` (one row per seeded change: what was changed, whether it was confirmed on HEAD, the checks that exit 1 on it, the',
        'checks that could not analyse the patched tree). Summary per property (a change counts as *own* when the check of the property',
-       'it was written against reports it, as *neighbour* when only checks of other properties do):', '',
+       'it was written against reports it, as *neighbour* when only checks of other properties do). The *own* column is from the last',
+       'full sensitivity audit (`audit/<id>.json`, the committed checks); entries of the other checks were refreshed with the final',
+       'checks for every change its own check does not report and for a sample of the others, and otherwise come from the last',
+       'all-checks run that included the change (each entry of `seeded/*/meta.json` names the /verif commit it was produced at):', '',
        '| property | seeded changes | own | neighbour only | reported by none | checks that most often report them |', '|---|---|---|---|---|---|']
 tot = [0, 0, 0, 0]
 for p in props:
